@@ -19,10 +19,10 @@ from sa.selftest import Edit, Variant
 from sa.sym import (ClassRef, Interp, PyCallable, Rec, closure_of, explore, method_of)
 from sa.poly import RF
 
-from sa.texts import T as _T
+from sa.texts import T as _TX
 
-EXPLANATION = _T["C10"]["explanation"] + " Not decided: " + _T["C10"]["not_decided"] + "."
-ASSUMPTIONS = _T["C10"]["assumptions"]
+EXPLANATION = _TX["C10"]["explanation"] + " Not decided: " + _TX["C10"]["not_decided"] + "."
+ASSUMPTIONS = _TX["C10"]["assumptions"]
 
 P = "C10"
 
@@ -280,17 +280,9 @@ def _check_exceptions(repo: Repo, rep: Report, res: Resolver):
     rep.floor("raise statements in the parser closure", n_raise, 1)
 
 
-def _check_printer(repo: Repo, rep: Report, folder: Folder, dP: DFA, dR: DFA, al, cP):
+def check_ntos(repo: Repo, rep: Report, rule: str):
+    """ntos interpreted on a symbolic number: str(int(n)) only under n.is_integer(), otherwise str(n) - the shortest text that re-reads as the same float."""
     meta = repo["svg_meta"]
-    st = repo["svg_types"]
-    # printer language within the parser language and consumed as ONE token
-    w = difference_witness(dR, dP)
-    if w is not None:
-        rep.fail("R-CASE.printer", "svg_path_iter._FLOAT_RE", cP.pattern,
-                 f"a printed number such as {w!r} (CPython repr form) is not matched whole by _FLOAT_RE: print -> parse does not round-trip",
-                 repo["svg_path_iter"])
-    else:
-        rep.ok("R-CASE.printer", "L(repr of finite float/int) within L(_FLOAT_RE)", f"product automaton, no witness ({dR.n_states()} x {dP.n_states()} states)", True)
     # ntos: returns str(int(n)) only for integral floats, str(n) otherwise
     nt = closure_of(repo, "svg_meta", "ntos")
     rep.saw("svg_meta.ntos", "svg_meta.path_segment")
@@ -308,9 +300,23 @@ def _check_printer(repo: Repo, rep: Report, folder: Folder, dP: DFA, dR: DFA, al
         elif val != "{n}":
             bad = f"prints {val!r} (path: {o.cond_text()}): only str(n) (shortest round-tripping repr) or str(int(n)) keep the value"
     if bad:
-        rep.fail("R-CASE.printer", "svg_meta.ntos", "ntos", f"number printer changed: {bad}", meta, meta.func("ntos"))
+        rep.fail(rule, "svg_meta.ntos", "ntos", f"number printer changed: {bad}", meta, meta.func("ntos"))
     else:
-        rep.ok("R-CASE.printer", "svg_meta.ntos", f"{len(outs)} paths: str(int(n)) only under is_integer, else str(n)", True)
+        rep.ok(rule, "svg_meta.ntos", f"{len(outs)} paths: str(int(n)) only under is_integer, else str(n)", True)
+
+
+def _check_printer(repo: Repo, rep: Report, folder: Folder, dP: DFA, dR: DFA, al, cP):
+    meta = repo["svg_meta"]
+    st = repo["svg_types"]
+    # printer language within the parser language and consumed as ONE token
+    w = difference_witness(dR, dP)
+    if w is not None:
+        rep.fail("R-CASE.printer", "svg_path_iter._FLOAT_RE", cP.pattern,
+                 f"a printed number such as {w!r} (CPython repr form) is not matched whole by _FLOAT_RE: print -> parse does not round-trip",
+                 repo["svg_path_iter"])
+    else:
+        rep.ok("R-CASE.printer", "L(repr of finite float/int) within L(_FLOAT_RE)", f"product automaton, no witness ({dR.n_states()} x {dP.n_states()} states)", True)
+    check_ntos(repo, rep, "R-CASE.printer")
     # path_segment per letter: letter first, then the numbers in order separated by exactly one ',' or ' '
     import re as _re
     ps = closure_of(repo, "svg_meta", "path_segment")
@@ -345,29 +351,6 @@ def _check_printer(repo: Repo, rep: Report, folder: Folder, dP: DFA, dR: DFA, al
                  f"{len(bad_cases)} of {n_cases} cases wrong; first: {msg}", meta, meta.func("path_segment"))
     else:
         rep.ok("R-CASE.printer", "svg_meta.path_segment", f"{n_cases} (letter x groups) cases: letter, then all numbers in order, one separator between any two", True)
-    # SVGPath._add separates segments; __iter__ parses exploded; update_path prints one segment per command
-    add = st.func("SVGPath._add")
-    txt = unparse(add)
-    if "if self.d:" in txt and "self.d += ' '" in txt and "self.d += path_snippet" in txt:
-        rep.ok("R-CASE.printer", "svg_types.SVGPath._add: segments separated by a space")
-    else:
-        rep.fail("R-CASE.printer", "svg_types.SVGPath._add", "if self.d: self.d += ' '", "segments are no longer separated by a space when appended", st, add)
-    it_fn = st.func("SVGPath.__iter__")
-    c = [c for c in ast.walk(it_fn) if isinstance(c, ast.Call) and call_name(c) == "parse_svg_path"]
-    exploded = c and any(k.arg == "exploded" and getattr(k.value, "value", None) is True for k in c[0].keywords)
-    if exploded:
-        rep.ok("R-CASE.printer", "svg_types.SVGPath.__iter__: parse_svg_path(self.d, exploded=True)")
-    else:
-        rep.fail("R-CASE.printer", "svg_types.SVGPath.__iter__", "parse_svg_path(self.d, exploded=True)",
-                 "iteration no longer yields exploded commands (walk() assumes one argument group per command)", st, it_fn)
-    up = st.func("SVGPath.update_path")
-    loops = [l for l in walk_no_nested(up) if isinstance(l, ast.For)]
-    per_cmd = any(any(isinstance(x, ast.Call) and call_name(x).endswith("._add_cmd") for x in ast.walk(l)) for l in loops)
-    if per_cmd and any("target.d = ''" in unparse(s) for s in up.body):
-        rep.ok("R-CASE.printer", "svg_types.SVGPath.update_path: d reset, then one _add_cmd per command")
-    else:
-        rep.fail("R-CASE.printer", "svg_types.SVGPath.update_path", "for cmd, args in svg_cmds: target._add_cmd(cmd, *args)",
-                 "update_path no longer prints exactly one segment per command after clearing d", st, up)
 
 
 # ----------------------------------------------------------------------------------------
